@@ -192,6 +192,10 @@ def run(ctx) -> None:
         ok_gn = checked or not gn_atoms
         why_gn = "a nested-graph node's name is checked on its own branch (or takes the common identifier check)" if ok_gn else "nested-graph nodes are skipped by the name validation without any check of their own: inner.as_node().with_name('a/b') enters a graph although the GraphNode constructor rejects that name"
     rep.add("C19.R1", f"{vvi.qname}:graph-node-names-checked", ok_gn, vvi.loc(), why_gn)
+    # ... and its output names (renamable with with_outputs) reach the same per-output check as every other node's
+    out_loops = [n for n in vcfg_.nodes if n.kind == "for" and isinstance(n.ast.iter, ast.Attribute) and n.ast.iter.attr == "outputs"]
+    ok_go = bool(vloops) and bool(out_loops) and bool(gn_atoms) and must_reach_in_iteration(vcfg_, vloops[0], out_loops, gn_atoms)
+    rep.add("C19.R1", f"{vvi.qname}:graph-node-outputs-checked", ok_go or not gn_atoms, vvi.loc(), "a nested-graph node's output names pass the per-output identifier check" if ok_go or not gn_atoms else "nested-graph nodes leave the name validation before their output names are checked: inner.as_node().with_outputs(y='not-valid') is accepted although the same rename on a function node is rejected")
 
     # ---- R2 ---------------------------------------------------------------------
     clo = db.closure([init], property_reads=True, stop=lambda f: f.module.name not in GRAPH_MODULES)
@@ -259,7 +263,7 @@ def run(ctx) -> None:
                     tainted[n.target.id] = n
                 if isinstance(n, ast.Assign) and isinstance(n.value, ast.ListComp) and isinstance(n.value.generators[0].iter, ast.Attribute) and n.value.generators[0].iter.attr == "targets":
                     gen = n.value.generators[0]
-                    sanit = any(isinstance(c, ast.Compare) and isinstance(c.ops[0], ast.In) and isinstance(c.left, ast.Name) and isinstance(gen.target, ast.Name) and c.left.id == gen.target.id and src(c.comparators[0]) in ("G", "G.nodes", "nodes", "self._nodes", "node_names") for t in gen.ifs for c in ast.walk(t))
+                    sanit = any(isinstance(c, ast.Compare) and isinstance(c.ops[0], ast.In) and isinstance(c.left, ast.Name) and isinstance(gen.target, ast.Name) and c.left.id == gen.target.id and (src(c.comparators[0]) in ("nodes", "self._nodes", "node_names") or src(c.comparators[0]).split(".")[0] in _nx_vars(f) and src(c.comparators[0]).count(".") <= 1) for t in gen.ifs for c in ast.walk(t))
                     if not sanit:
                         for t in n.targets:
                             if isinstance(t, ast.Name):
@@ -269,7 +273,7 @@ def run(ctx) -> None:
             for c in db.calls_in(f):
                 d = dotted(c.func) or ""
                 short = d.split(".")[-1]
-                if short in NX_QUERIES and (d.startswith("nx.") or d.startswith("G.") or d.startswith("sub.")):
+                if short in NX_QUERIES and (d.startswith("nx.") or d.split(".")[0] in _nx_vars(f)):
                     for a in c.args:
                         if isinstance(a, ast.Name) and a.id in tainted:
                             if rnd == 1:
@@ -286,14 +290,14 @@ def run(ctx) -> None:
             # subscript G[t] / G.nodes[t]
             if rnd == 1:
                 for n in walk_local(f.node):
-                    if isinstance(n, ast.Subscript) and isinstance(n.slice, ast.Name) and n.slice.id in tainted and src(n.value) in ("G", "G.nodes", "G.adj", "G.succ", "G.pred"):
+                    if isinstance(n, ast.Subscript) and isinstance(n.slice, ast.Name) and n.slice.id in tainted and src(n.value).split(".")[0] in _nx_vars(f) and (src(n.value).count(".") == 0 or src(n.value).split(".")[-1] in ("nodes", "adj", "succ", "pred")):
                         n_sites += 1
                         ok = guard_for(f, n, n.slice.id)
                         rep.add("C19.R3", f"{f.qname}:{src(n.value)}[{n.slice.id}]", ok, f"{f.module.rel}:{n.lineno}", "guarded subscript" if ok else "graph subscript with an unchecked gate target")
                 # G.has_edge(node.name, target) / add_edge with target: allowed only under guard as well
                 for c in db.calls_in(f):
                     d = dotted(c.func) or ""
-                    if d in ("G.add_edge",) and any(isinstance(a, ast.Name) and a.id in tainted for a in c.args):
+                    if d.split(".")[-1] == "add_edge" and d.split(".")[0] in _nx_vars(f) and any(isinstance(a, ast.Name) and a.id in tainted for a in c.args):
                         a = [a for a in c.args if isinstance(a, ast.Name) and a.id in tainted][0]
                         n_sites += 1
                         ok = guard_for(f, c, a.id)
@@ -349,7 +353,7 @@ def run(ctx) -> None:
     # ---- R9 ---------------------------------------------------------------------
     hu = db.func("_typing._handle_union_types")
     hcfg = ctx.cfg(hu)
-    tparams = [p for p in hu.param_names if p.endswith("_type")]
+    tparams = [p for p in hu.positional_params if p != "self"][:2]  # (incoming, required): by position, whatever the private helper calls them
     flags: dict[str, str] = {}
     for nm, ds in db.local_defs(hu).items():
         for d in ds:
@@ -378,7 +382,7 @@ def run(ctx) -> None:
     hg = db.func("_typing._handle_generic_types")
     gcfg = ctx.cfg(hg)
     gdom = dominators(gcfg.entry)
-    tps = [p_ for p_ in hg.param_names if p_.endswith("_type")]
+    tps = [p_ for p_ in hg.positional_params if p_ != "self"][:2]
     arg_defs = {}
     for n in gcfg.nodes:
         if n.kind == "stmt" and isinstance(n.ast, ast.Assign) and isinstance(n.ast.targets[0], ast.Name) and isinstance(n.ast.value, ast.Call) and dotted(n.ast.value.func) == "get_args" and n.ast.value.args and src(n.ast.value.args[0]) in tps:
@@ -437,6 +441,22 @@ def run(ctx) -> None:
         dom7 = dominators(vcfg7.entry)
         dup_tests = [t for t in vcfg7.nodes if t.kind == "test" and t.ast is not None and (".count(" in src(t.ast) or ("len(set(" in src(t.ast) and "len(" in src(t.ast).replace("len(set(", "")))]
         dup_guard_before = ln7 is not None and any(any(x.kind == "stmt" and isinstance(x.ast, ast.Raise) for x, l, _ in t.succ if l in ("T", "F")) and lp.lineno > t.lineno and not contains(lp, t.ast) for t in dup_tests)
+        if dup_guard_before and not self_ok:
+            # the up-front rejection must range over every name with a repeated producer — also a name whose only
+            # producer lists it twice: evaluate the filter that defines the iterated collection for sources == [n, n]
+            for t in dup_tests:
+                lp_ = next((a for a in ancestors(t.ast) if isinstance(a, ast.For)), None)
+                outer_ = next((a for a in ancestors(lp_) if isinstance(a, ast.For)), None) if lp_ is not None else None
+                for l_ in [x for x in (outer_, lp_) if x is not None]:
+                    base = l_.iter.func.value if isinstance(l_.iter, ast.Call) and isinstance(l_.iter.func, ast.Attribute) and l_.iter.func.attr in ("items", "values", "keys") else l_.iter
+                    if isinstance(base, ast.Name):
+                        for d in db.local_defs(voc_f).get(base.id, []):
+                            v = getattr(d, "value", None)
+                            if isinstance(v, (ast.DictComp, ast.ListComp, ast.SetComp)) and v.generators and v.generators[0].ifs:
+                                g_ = v.generators[0]
+                                val_name = g_.target.elts[1].id if isinstance(g_.target, ast.Tuple) and len(g_.target.elts) == 2 and isinstance(g_.target.elts[1], ast.Name) else None
+                                if val_name and not all(_eval_on_duplicate(i_, val_name) for i_ in g_.ifs):
+                                    dup_guard_before = False
         ok7 = self_ok or dedup_elsewhere or dup_guard_before
         rep.add("C19.R7", f"{voc_f.qname}:self-pair-rejected#{n_pairs}", ok7, f"{voc_f.module.rel}:{lp.lineno}", "a node listed twice for one name is rejected" if ok7 else "a node that declares the same output name twice pairs with itself and passes as 'ordered' (has_path(n, n) holds trivially): node(output_name=('a', 'a')) is accepted, the graph reports outputs ('a',) and the first returned value is silently lost")
     if n_pairs < 2:
@@ -466,7 +486,8 @@ def run(ctx) -> None:
     # ---- R6 ---------------------------------------------------------------------
     vt = db.func("graph.validation._validate_types")
     loops = [n for n in walk_local(vt.node) if isinstance(n, ast.For)]
-    ok = len(loops) >= 2 and "nx_graph.edges(data=True)" in src(loops[0].iter) and "value_names" in src(loops[1].iter)
+    P_NODES, P_NX = (vt.positional_params + ["nodes", "nx_graph"])[:2]  # own parameter names of the private validator
+    ok = len(loops) >= 2 and f"{P_NX}.edges(data=True)" in src(loops[0].iter) and "value_names" in src(loops[1].iter)
     rep.add("C19.R6", f"{vt.qname}:all-edges-all-values", ok, vt.loc(), "iterates every edge and every value name on it" if ok else "type validation does not iterate every value of every data edge")
     # ... and no (edge, value) pair is skipped: every iteration of the per-value loop reaches the compatibility
     # question (or a rejection), every iteration of the per-edge loop that carries values reaches the per-value loop
@@ -495,7 +516,7 @@ def run(ctx) -> None:
             if isinstance(l.ast.target, ast.Name) and l.ast.target.id == r6.id:
                 exprs6 = [l.ast.iter] + [getattr(d, "value", None) for nm in {x.id for x in ast.walk(l.ast.iter) if isinstance(x, ast.Name)} for d in db.local_defs(vt).get(nm, [])]
                 txt = " ".join(src(e) for e in exprs6 if e is not None)
-                scans_nodes = any(isinstance(x, ast.Call) and src(x.func).endswith("nodes.values") for e in exprs6 if e is not None for x in ast.walk(e))
+                scans_nodes = any(isinstance(x, ast.Call) and src(x.func) == f"{(vt.positional_params + ['nodes'])[0]}.values" for e in exprs6 if e is not None for x in ast.walk(e))
                 by_output = any(isinstance(x, ast.Compare) and len(x.ops) == 1 and isinstance(x.ops[0], ast.In) and src(x.comparators[0]).endswith(".outputs") for e in exprs6 if e is not None for x in ast.walk(e))
                 if scans_nodes and by_output:
                     all_prod = True
@@ -540,7 +561,7 @@ def run(ctx) -> None:
             if gi is not None and isinstance(gi.test, ast.UnaryOp) and isinstance(gi.test.op, ast.Not) and any(isinstance(x, ast.Raise) for x in ast.walk(gi)):
                 compat_ok = True
         # producer side is the edge's source node, consumer side its target node
-        srcs = solve(["for _A, _B, _D in nx_graph.edges(data=True): ...", "_S = nodes[_A]", "_T = nodes[_B]"], vt.node)
+        srcs = solve([f"for _A, _B, _D in {P_NX}.edges(data=True): ...", f"_S = {P_NODES}[_A]", f"_T = {P_NODES}[_B]"], vt.node)
         def _is_source(sname: str, e2) -> bool:
             if src(e2["_S"]) == sname:
                 return True
@@ -572,6 +593,47 @@ def _edge_kind_valuation(cfg, loop, kind: str) -> dict[str, bool]:
         if v is not None:
             val[src(a)] = v
     return val
+
+
+def _eval_on_duplicate(e: ast.AST, name: str):
+    """Value of a filter expression for ``name == [n, n]`` (one producer listed twice): len(name) = 2, len(set(name)) = 1."""
+    if isinstance(e, ast.Constant):
+        return e.value
+    if isinstance(e, ast.Call) and dotted(e.func) == "len" and len(e.args) == 1:
+        a = e.args[0]
+        if isinstance(a, ast.Name) and a.id == name:
+            return 2
+        if isinstance(a, ast.Call) and dotted(a.func) in ("set", "frozenset") and len(a.args) == 1 and isinstance(a.args[0], ast.Name) and a.args[0].id == name:
+            return 1
+        return None
+    if isinstance(e, ast.Compare) and len(e.ops) == 1:
+        l, r = _eval_on_duplicate(e.left, name), _eval_on_duplicate(e.comparators[0], name)
+        if l is None or r is None:
+            return True  # unknown: do not object
+        op = e.ops[0]
+        return {ast.Gt: l > r, ast.GtE: l >= r, ast.Lt: l < r, ast.LtE: l <= r, ast.Eq: l == r, ast.NotEq: l != r}.get(type(op), True)
+    if isinstance(e, ast.BoolOp):
+        vals = [_eval_on_duplicate(v, name) for v in e.values]
+        return all(vals) if isinstance(e.op, ast.And) else any(vals)
+    if isinstance(e, ast.UnaryOp) and isinstance(e.op, ast.Not):
+        return not _eval_on_duplicate(e.operand, name)
+    return True
+
+
+def _nx_vars(f: FuncInfo) -> set[str]:
+    """Names that hold a networkx graph in ``f``: parameters annotated DiGraph/Graph of nx, locals bound from
+    nx.DiGraph(...), .subgraph(...), .copy(), plus the conventional names."""
+    out = {"G", "sub", "nx_graph"}
+    a = f.node.args
+    for arg in a.posonlyargs + a.args + a.kwonlyargs:
+        if arg.annotation is not None and "DiGraph" in src(arg.annotation):
+            out.add(arg.arg)
+    for n in walk_local(f.node):
+        if isinstance(n, ast.Assign) and isinstance(n.targets[0], ast.Name) and isinstance(n.value, ast.Call):
+            d = dotted(n.value.func) or ""
+            if d.endswith("DiGraph") or d.split(".")[-1] in ("subgraph", "copy", "reverse") and d.split(".")[0] in out:
+                out.add(n.targets[0].id)
+    return out
 
 
 def _ri(f: FuncInfo, r: ast.AST) -> int:
@@ -671,5 +733,5 @@ VARIANTS = [
     Variant("twin-edge-endpoints-via-get", CORE, chain(replace_once("            if src not in self._nodes:\n                raise GraphConfigError(f\"Edge references unknown source node '{src}'\")\n", "            if self._nodes.get(src) is None:\n                raise GraphConfigError(f\"Edge references unknown source node '{src}'\")\n"), replace_once("            if dst not in self._nodes:\n                raise GraphConfigError(f\"Edge references unknown target node '{dst}'\")\n", "            if self._nodes.get(dst) is None:\n                raise GraphConfigError(f\"Edge references unknown target node '{dst}'\")\n")), set()),
     Variant("edge-target-not-looked-up", CORE, replace_once("            if dst not in self._nodes:\n                raise GraphConfigError(f\"Edge references unknown target node '{dst}'\")\n", ""), {"C19.R1"}),
     Variant("self-pair-not-rejected", CO, sub_once(r"    # A node that lists one output name twice.*?distinct names\"\n                \)\n\n", ""), {"C19.R7"}),
-    Variant("graph-node-names-unchecked", VA, replace_once("            _validate_graph_name(node.name)\n            continue\n", "            continue\n"), {"C19.R1"}),
+    Variant("graph-node-names-unchecked", VA, replace_once("            _validate_graph_name(node.name)\n        elif not node.name.isidentifier():", "            pass\n        elif not node.name.isidentifier():"), {"C19.R1"}),
 ]
